@@ -2,7 +2,9 @@ package main
 
 import (
 	"bufio"
+	"context"
 	"fmt"
+	"net"
 	"os"
 	"os/exec"
 	"path/filepath"
@@ -182,7 +184,7 @@ func c08CloneReg(reg c14Registry) c14Registry {
 }
 
 // c08Gen generates the next request given the current acknowledged registry.
-func c08Gen(r *common.Rand, reg c14Registry, kf03Open bool) c08Req {
+func c08Gen(r *common.Rand, reg c14Registry, kf03Open bool, realClock bool) c08Req {
 	parent := c14Parents[0]
 	id := common.Pick(r, c14Ids[:2])
 	name := drive.TableName(parent, id)
@@ -309,6 +311,9 @@ func c08Gen(r *common.Rand, reg c14Registry, kf03Open bool) c08Req {
 			if mu.Kind != model.DelRow {
 				mu.Fam = common.Pick(r, fs)
 			}
+			if realClock && mu.Kind == model.SetCell && mu.TS == -1 {
+				mu.TS = 3000 // the real binary runs on the real clock: no server-assigned timestamps in this part
+			}
 			muts = append(muts, mu)
 		}
 		v, _ := m.Apply(key, muts, gen.BaseClock)
@@ -364,6 +369,18 @@ func runC08(run *common.Run) {
 	defer os.RemoveAll(scratch)
 	run.Canary("KF03", func() (bool, string) { return c08DropFamilyCanary(filepath.Join(scratch, "kf03")) })
 	j := common.NewJournal("C08")
+	if run.WantSub("real") {
+		nreal := run.N(3, 40)
+		common.Parallel(nreal, 4, func(p int) {
+			if !run.Want("real", p) || run.TooMany() {
+				return
+			}
+			c08RealBinary(run, p, filepath.Join(scratch, fmt.Sprintf("real%d", p)))
+		})
+	}
+	if !run.WantSub("prog") {
+		return
+	}
 	common.Parallel(nprog, workers(), func(p int) {
 		if !run.Want("prog", p) || run.TooMany() {
 			return
@@ -427,7 +444,7 @@ func c08Program(run *common.Run, p int, base string) {
 	cycles := 0
 	pointTurn := r.Intn(3)
 	for step := 0; step < n; step++ {
-		req := c08Gen(r, reg, run.KnownOpen("KF03"))
+		req := c08Gen(r, reg, run.KnownOpen("KF03"), false)
 		// (ii) crash at an instrumented point inside this request?
 		if len(req.crashPoints) > 0 && req.valid && (step+pointTurn)%2 == 0 && cycles < 5 {
 			point := common.Pick(r, req.crashPoints)
@@ -587,4 +604,101 @@ func c08DropFamilyCanary(base string) (bool, string) {
 	}
 	msg = c08VerifyImage("kf03v", img, []c14Registry{pre, post})
 	return msg != "", msg
+}
+
+// c08RealBinary drives the real `cbtemulator -dir` binary (built from /repo by ./check, no hooks): SIGKILL between
+// requests, restart on the same directory, compare with the acknowledged model. Covers the command-line wiring.
+func c08RealBinary(run *common.Run, p int, dir string) {
+	bin := filepath.Join(common.Root(), ".build", "cbtemulator")
+	if _, err := os.Stat(bin); err != nil {
+		run.Inconclusive("cbtemulator binary not built")
+		return
+	}
+	_ = os.MkdirAll(dir, 0o777)
+	defer os.RemoveAll(dir)
+	r := run.Rand("C08.real", p)
+	reg := c14Registry{}
+	var steps []string
+	start := func() (*exec.Cmd, *drive.Srv, string) {
+		l, err := net.Listen("tcp", "127.0.0.1:0")
+		if err != nil {
+			return nil, nil, err.Error()
+		}
+		port := l.Addr().(*net.TCPAddr).Port
+		l.Close()
+		cmd := exec.Command(bin, "-host", "127.0.0.1", "-port", fmt.Sprint(port), "-dir", dir)
+		errf, _ := os.Create(filepath.Join(dir, "..", fmt.Sprintf("real%d.err", p)))
+		cmd.Stderr = errf
+		cmd.SysProcAttr = &syscall.SysProcAttr{Pdeathsig: syscall.SIGKILL}
+		if err := cmd.Start(); err != nil {
+			return nil, nil, err.Error()
+		}
+		srv, err := drive.Connect(fmt.Sprintf("127.0.0.1:%d", port))
+		if err != nil {
+			cmd.Process.Kill()
+			return nil, nil, err.Error()
+		}
+		// wait until it serves
+		for i := 0; i < 400; i++ {
+			ctx, cancel := context.WithTimeout(context.Background(), 500*time.Millisecond)
+			_, err = srv.Admin.ListTables(ctx, &btapb.ListTablesRequest{Parent: c14Parents[0]})
+			cancel()
+			if err == nil {
+				return cmd, srv, ""
+			}
+			if cmd.ProcessState != nil {
+				break
+			}
+			time.Sleep(25 * time.Millisecond)
+		}
+		cmd.Process.Kill()
+		cmd.Wait()
+		buf, _ := os.ReadFile(filepath.Join(dir, "..", fmt.Sprintf("real%d.err", p)))
+		return nil, nil, "cbtemulator did not come up on the directory: " + fmt.Sprint(err) + " stderr: " + truncStr(string(buf), 600)
+	}
+	cmd, srv, msg := start()
+	if cmd == nil {
+		run.Violation("real", p, "cannot start cbtemulator: "+msg, nil)
+		return
+	}
+	defer func() {
+		if cmd != nil {
+			cmd.Process.Kill()
+			cmd.Wait()
+		}
+		os.Remove(filepath.Join(dir, "..", fmt.Sprintf("real%d.err", p)))
+	}()
+	n := r.Range(25, 50)
+	kills := 0
+	for step := 0; step < n; step++ {
+		req := c08Gen(r, reg, false, true)
+		st := req.send(srv)
+		steps = append(steps, req.desc+" -> "+st.String())
+		if req.valid && !st.OK() {
+			run.Violation("real", p, "valid request failed: "+st.String(), map[string]any{"steps": steps})
+			return
+		}
+		if st.OK() {
+			req.apply(reg)
+		}
+		if r.Chance(1, 3) {
+			// kill -9 between requests and restart the binary on the same directory
+			srv.Conn.Close()
+			cmd.Process.Kill()
+			cmd.Wait()
+			kills++
+			cmd, srv, msg = start()
+			if cmd == nil {
+				run.Violation("real", p, fmt.Sprintf("restart #%d after kill -9 failed: %s", kills, msg), map[string]any{"steps": steps})
+				return
+			}
+			steps = append(steps, "[kill -9, restart]")
+			if m := c14CheckAll(srv, reg); m != "" {
+				run.Violation("real", p, fmt.Sprintf("after kill -9 and restart #%d: %s", kills, m), map[string]any{"steps": steps})
+				return
+			}
+			run.Count("real_binary_kill_restart_cycles", 1)
+			run.Case(common.Hash64("real", fmt.Sprint(p, kills, steps)), len(reg) > 0)
+		}
+	}
 }
